@@ -478,9 +478,13 @@ func (s *Store[H]) flushLoop(ctx context.Context) {
 	defer close(s.writesDn)
 
 	flush := func(headers []H, force bool) {
-		s.ensureInit(headers)
+		initHeight := s.ensureInit(headers)
 		// add headers to the pending and ensure they are accessible
 		s.pending.Append(headers...)
+		if initHeight != 0 {
+			// only now, with the headers accessible: this wakes those waiting for a height below the new head
+			s.heightSub.Init(initHeight)
+		}
 		simYield("store:flush:after-pending")
 		// always inform heightSub about new headers seen.
 		s.heightSub.Notify(getHeights(headers...)...)
@@ -778,15 +782,17 @@ func (s *Store[H]) init(ctx context.Context) error {
 }
 
 // ensureInit initializes the store with the given headers if it is not already initialized.
-func (s *Store[H]) ensureInit(headers []H) {
+// It returns the height heightSub has to be initialized with, once the headers are accessible,
+// or 0 if the head was initialized already.
+func (s *Store[H]) ensureInit(headers []H) (initHeight uint64) {
 	if len(headers) == 0 {
-		return
+		return 0
 	}
 
 	if headPtr := s.contiguousHead.Load(); headPtr == nil {
 		head := headers[len(headers)-1]
 		if s.contiguousHead.CompareAndSwap(headPtr, &head) {
-			s.heightSub.Init(head.Height())
+			initHeight = head.Height()
 			log.Debugw("initialized head", "height", head.Height())
 		}
 	}
@@ -796,6 +802,7 @@ func (s *Store[H]) ensureInit(headers []H) {
 		s.tailHeader.CompareAndSwap(tailPtr, &tail)
 		log.Debugw("initialized tail", "height", tail.Height())
 	}
+	return initHeight
 }
 
 // deinit deinitializes the store.
